@@ -10,6 +10,8 @@ CONSTANTS
   ULo <- MCULo
   UHi <- MCUHi
   WriteBy = "parmode"
+  ObsRole <- MCRole
+  DataRead = "after"
   Lo <- MCLo
   Hi <- MCHi
   Val0 <- MCVal0
